@@ -4,6 +4,14 @@ import json, os
 ROOT = os.path.dirname(os.path.dirname(os.path.abspath(__file__)))
 props = [json.loads(l) for l in open(os.path.join(ROOT, "properties.jsonl"))]
 CLAIMED = {
+ "C04": dict(
+   text="Coq theorems (any field with conjugation): for the EOF model transform(X_fit) = scores with the model's own sign convention; for the rotator model, before compute() and after (sorted by any index list), project-divide-rotate-sort-rescale-resign of the training matrix equals the fitted rotated scores (premise: retained singular values non-zero). Rotator step order and formulas are proved equal to the definitions regenerated from eof_rotator.py. Correspondence: rotation model at binary64/complex vs EOFRotator/ComplexEOFRotator (power 1-3). Oracle at the public API on every transform-capable class (EOF, ComplexEOF, SparsePCA, POP, CPCCA/MCA/CCA/RDA + complex, their rotators, multi.CCA): values, dims, sample labels, mode order. SparsePCA/POP/cross/multi are oracle-only (partial).",
+   note="Trusted: Coq kernel; translator T3/T5eof/T5rot; SVD and rotation matrix as oracles (residuals checked); SparsePCA, POP, CPCCA-family and multi.CCA transform-vs-scores rest on the API-level oracle, not a theorem.",
+   technique="Coq proof on EOF/rotator models + float correspondence + API-level differential oracle", ref="4/C04"),
+ "C11": dict(
+   text="Coq theorems: every Varimax iterate is unitary (induction over an unbounded number of iterations, inner SVD an oracle); for any invertible R with RinvT = R^{-H} and any power the reconstruction from rotated scores/components equals the unrotated k-mode reconstruction (abstract field with square-root hypotheses; discharged for real data with D_j > 0 over Coq's reals); sorting all mode arrays by one permutation preserves the reconstruction (sum invariance under Permutation); power 1: rotated normalised scores stay orthonormal. Model formulas and step lists proved equal to those regenerated from eof_rotator.py. Correspondence: rotation model vs EOFRotator/ComplexEOFRotator; API-level oracles (recon equality, descending order, sign convention, unitary R, orthonormal scores, conserved variance, Varimax criterion) on EOF-, Hilbert- and CPCCA-family rotators. Varimax ascent is stated, not proved (partial).",
+   note="Trusted: Coq kernel; translator T5rot/T5eof/T3; rotation matrix oracle (inverse re-checked in Coq); Kaiser stabiliser eps treated as 0; Coq.Reals axioms in C11_recon_equal_real; cross-set rotator algebra oracle-only.",
+   technique="Coq proof (induction over iterations, matrix algebra, Permutation) + float correspondence + API oracle", ref="4/C11"),
  "C03": dict(
    text="Coq theorems (any field with conjugation): the inverse operation list regenerated from Scaler.inverse_transform_data undoes the list regenerated from Scaler.transform element by element for all flag combinations (forced hypotheses: std, coslat weight, user weight non-zero); with all modes kept the model's scores reconstruct the decomposed matrix exactly; transform(inverse_transform(S)) = S for every score matrix S of any sample count; the normalized switches (regenerated from base_model_single_set.py) differ from the default exactly by the norms. Correspondence: the scaler model at binary64 vs Scaler on all 16 flag/weight combinations; oracles at the public API for EOF/ComplexEOF/HilbertEOF and the CPCCA family (full-mode reconstruction in physical units, transform o inverse on arbitrary scores and coordinates, normalized switches).",
    note="Trusted: Coq kernel; translator T4/T5eof/T3; xarray broadcasting of per-feature statistics (modelled as per-column parameters); SVD oracle; cross-set reconstruction is covered by oracle+correspondence here and by the CPCCA theorems of C09/C16.",
